@@ -362,7 +362,12 @@ func (pl *Plugin) NominateReservation(ctx context.Context, cycleState fwktype.Cy
 	}
 
 	if len(reservationInfos) == 1 && state.hasAffinity {
-		return reservationInfos[0], nil
+		// the shortcut must not skip the allocate-once gate of FilterNominateReservation: the matchable index is
+		// only refreshed by reservation events, so it can still list a reservation a pod was just assumed on
+		if rInfo := reservationInfos[0]; !(rInfo.IsAllocateOnce() && rInfo.GetAllocatedPods() > 0) {
+			return rInfo, nil
+		}
+		return nil, nil
 	}
 
 	rInfo := pl.GetNominatedReservation(pod, nodeName)
